@@ -292,6 +292,17 @@ def run(ctx):
                     kind = rnd.choice([int, int, np.int64, np.float32])
                     v.minimum, v.maximum = kind(v.minimum), kind(v.maximum)
                 ctx.hit("ranges held as integers")
+            if i % 4 == 1:
+                # the loaded engine is edited before it is tabulated: rule texts exchanged, a term replaced by another object of the
+                # same name - the dataset is that of the engine as it is described now
+                rules = [r for rb in engine.rule_blocks for r in rb.rules]
+                if len(rules) >= 2:
+                    a, b = rnd.sample(rules, 2)
+                    a.text, b.text = b.text, a.text
+                v = rnd.choice(engine.input_variables)
+                if v.terms and all(math.isfinite(x) for x in (v.minimum, v.maximum)):
+                    v.terms[0] = fl.Triangle(v.terms[0].name, v.minimum, 0.5 * (v.minimum + v.maximum), v.maximum)
+                ctx.hit("event:engine edited after loading, before export")
             for rep in range(ctx.scale(4, 6)):
                 each = rnd.random() < 0.4
                 if each:
@@ -347,6 +358,23 @@ def run(ctx):
                 fl.FldExporter().to_string_from_scope(cheap[n], v, Scope.AllVariables)
             except Exception:
                 pass
+        # tables of several thousand rows (batch-wise writing)
+        for i, rnd in ctx.cases("large tables", ctx.scale(2, 24)):
+            nin = 1 + i % 2
+            spec = E.gen_engine(rnd, activations=("General",), max_inputs=nin, d=3, resolutions=[5], max_rules=3, max_depth=1, locks=False)
+            while len(spec["inputs"]) != nin:
+                spec = E.gen_engine(rnd, activations=("General",), max_inputs=nin, d=3, resolutions=[5], max_rules=3, max_depth=1, locks=False)
+            try:
+                engine = E.build(fl, spec)
+            except Exception:
+                continue
+            v = rnd.choice([5000, 4097, 9000]) if nin == 1 else rnd.choice([71, 100])  # each variable: 71^2 = 5041, 100^2 = 10000 rows
+            with fl.settings.context(decimals=3):
+                try:
+                    fl.FldExporter().to_string_from_scope(engine, v, Scope.EachVariable)  # judged by the monitor
+                except Exception:
+                    pass
+            ctx.hit("workload:table of more than 4096 rows")
         # reader
         for i, rnd in ctx.cases("reader", ctx.scale(250, 4000)):
             spec = E.gen_engine(rnd, activations=("General",), max_inputs=3, d=3, resolutions=[5, 10], max_rules=3, max_depth=1)
@@ -387,17 +415,28 @@ def run(ctx):
                         lines[k] = " ".join(toks + [f"{rnd.uniform(-1, 1):.3f}"] * (moved if moved and rnd.random() < 0.7 else 1))
                         moved = 0
                 ctx.hit("reader:ragged rows")
+            if data and rnd.random() < 0.15:
+                # values that are not finite, written with letters (nan, inf), first thing on a row
+                k = rnd.choice(data[:2])
+                toks = lines[k].split()
+                toks[0] = rnd.choice(["nan", "inf", "NaN", "-inf", "Infinity"])
+                lines[k] = " ".join(toks)
+                ctx.hit("reader:row starting with a non-finite value")
             text = "\n".join(lines) + rnd.choice(["", "\n"])
             with fl.settings.context(decimals=rnd.choice([1, 3, 6])):
                 try:
-                    fl.FldExporter(headers=rnd.random() < 0.7).to_string_from_reader(engine, io.StringIO(text), skip_lines=skip)
+                    if skip == 0 and rnd.random() < 0.5:
+                        fl.FldExporter(headers=rnd.random() < 0.7).to_string_from_reader(engine, io.StringIO(text))  # skip_lines left to its default
+                        ctx.hit("reader:skip_lines left to its default")
+                    else:
+                        fl.FldExporter(headers=rnd.random() < 0.7).to_string_from_reader(engine, io.StringIO(text), skip_lines=skip)
                 except Exception:
                     pass
             if i < 2:
                 ctx.sample("reader", {"reader": text, "skip_lines": skip})
         probe.report(ctx)
         reach.report(ctx)
-    ctx.require("ranges held as integers", "reader:rows with output columns", "reader:ragged rows")
+    ctx.require("ranges held as integers", "reader:rows with output columns", "reader:ragged rows", "reader:row starting with a non-finite value", "reader:skip_lines left to its default", "workload:table of more than 4096 rows", "event:engine edited after loading, before export")
     ctx.require("hook:FldExporter.to_string_from_scope", "hook:FldExporter.to_string_from_reader", "scope:AllVariables", "scope:EachVariable", "scope:reader", "compare:outputs of a row", "piece:perfect power", "piece:between powers", "inputs:1", "inputs:2", "inputs:3", "inputs:4", "entry:file", "entry:writer")
 
 
